@@ -1,6 +1,71 @@
 package main
 
-type held struct{}
+import (
+	"fmt"
+	"os"
+	"os/exec"
+	"strings"
+)
 
-func selftestMain(args []string) int   { return 0 }
-func replaySpecial(rf *ReplayFile) int { return 2 }
+// replaySpecial replays a C18 file in the binary its mode needs: the
+// AST-instrumented one (serialized) or the -race one (parallel, up to 5 runs).
+func replaySpecial(rf *ReplayFile, path string) int {
+	yb, rb := os.Getenv("IKESIM_YIELD_BIN"), os.Getenv("IKESIM_RACE_BIN")
+	if yb == "" || rb == "" {
+		fmt.Fprintln(os.Stderr, "C18 replay needs the instrumented and -race binaries (use check.sh replay)")
+		return 2
+	}
+	parallel := len(rf.Scenario.Steps) == 1 && (len(rf.Scenario.Steps[0].Rounds) > 0 || rf.Scenario.Steps[0].Procs > 0)
+	if !parallel {
+		cmd := exec.Command(yb, "replay", path)
+		cmd.Env = append(os.Environ(), "IKESIM_C18_MODE=yield")
+		cmd.Stdout, cmd.Stderr = os.Stdout, os.Stderr
+		if err := cmd.Run(); err != nil {
+			if ee, ok := err.(*exec.ExitError); ok {
+				return ee.ExitCode()
+			}
+			return 2
+		}
+		return 0
+	}
+	for i := 1; i <= 5; i++ {
+		cmd := exec.Command(rb, "replay", path)
+		cmd.Env = append(os.Environ(), "IKESIM_C18_MODE=race", "GORACE=halt_on_error=1 exitcode=66")
+		var se strings.Builder
+		cmd.Stdout, cmd.Stderr = os.Stdout, &se
+		err := cmd.Run()
+		if err == nil {
+			continue
+		}
+		if strings.Contains(se.String(), "WARNING: DATA RACE") || strings.Contains(se.String(), "fatal error: ") {
+			fmt.Printf("reproduced on run %d/5\n%s\n", i, raceExcerpt(se.String()))
+			fmt.Printf("VIOLATION property=%s replay=%s\n", rf.Property, path)
+			return 1
+		}
+		if ee, ok := err.(*exec.ExitError); ok && ee.ExitCode() == 1 {
+			fmt.Printf("VIOLATION property=%s replay=%s\n", rf.Property, path)
+			return 1
+		}
+		fmt.Fprintln(os.Stderr, se.String())
+		return 2
+	}
+	fmt.Println("replay: reproduced 0/5")
+	return 0
+}
+
+// reportMain: confirm + shrink + write the replay file inside this binary.
+func reportMain(args []string) int {
+	if len(args) < 7 {
+		return 2
+	}
+	p := props[args[0]]
+	var seed uint64
+	var idx int
+	fmt.Sscan(args[2], &seed)
+	fmt.Sscan(args[3], &idx)
+	installSimRand()
+	wv := WorkerViol{Index: idx, V: Violation{Prop: p.ID, Oracle: args[4], Key: args[5]}}
+	os.Setenv("IKESIM_REPORT_PATH", args[6])
+	reportViolation(p, seed, args[1], wv)
+	return 0
+}
